@@ -174,6 +174,7 @@ fn check_bucket(obs: &mut Obs, newest: usize, p: usize, rng: &mut Rng, label: &s
         6 => now_ms - rng.below(170_000) as i64, // uploading right now: the newest directories are seconds old
         0 => now_ms + 120_000,
         1 => now_ms + 3_600_000 + rng.below(1_000_000) as i64,
+        2 if rng.chance(1, 3) => 13_569_465_600_000 + rng.below(1_000_000_000) as i64, // year 2400 (beyond i64 nanoseconds)
         2 => 4_102_444_800_000 + rng.below(1_000_000_000) as i64, // year 2100
         _ => 1_722_000_000_000 + rng.below(1_000_000_000) as i64,
     };
@@ -201,7 +202,7 @@ fn check_bucket(obs: &mut Obs, newest: usize, p: usize, rng: &mut Rng, label: &s
             // (ephemeral ports), not the code under test: inconclusive, never a verdict
             if let nexrad_data::result::Error::AWS(nexrad_data::result::aws::AWSError::S3ListObjectsError(re)) = &e {
                 if re.is_connect() {
-                    obs.inconclusive(format!("loopback connect to the simulator failed: {re}"));
+                    obs.skipped_environment(format!("loopback connect to the simulator failed: {re}"));
                     return;
                 }
             }
@@ -308,7 +309,7 @@ fn check_history(obs: &mut Obs, rng: &mut Rng, index: u64) {
             Ok(Err(e)) => {
                 if let nexrad_data::result::Error::AWS(nexrad_data::result::aws::AWSError::S3ListObjectsError(re)) = &e {
                     if re.is_connect() {
-                        obs.inconclusive(format!("loopback connect to the simulator failed: {re}"));
+                        obs.skipped_environment(format!("loopback connect to the simulator failed: {re}"));
                         break;
                     }
                 }
